@@ -16,6 +16,11 @@ import time
 import threading
 
 import z3
+import os as _os
+import sys as _sys
+_sys.path.insert(0, _os.path.dirname(_os.path.dirname(_os.path.abspath(__file__))))
+from vlib import frame as _frame
+FRAME_CHECK = _os.environ.get('SYMX_FRAME_CHECK', '1') == '1'
 
 
 class Watchdog:
@@ -149,12 +154,21 @@ class Engine:
         while self.todo and len(results) < maxpaths:
             self.prefix = self.todo.pop()
             self.path = []
+            before = _frame.snapshot() if FRAME_CHECK else None
             try:
                 out = fn()
             except PathAbort:
                 continue
             except Exception as e:  # noqa: BLE001  the code under test raised on this path
                 out = e
+            if FRAME_CHECK:
+                # frame condition (history independence): the call left the package's module-level mutable state unchanged
+                self.frame_paths = getattr(self, "frame_paths", 0) + 1
+                d = _frame.diff(before, _frame.snapshot())
+                if d:
+                    self.frame_diffs = getattr(self, "frame_diffs", [])
+                    if len(self.frame_diffs) < 5:
+                        self.frame_diffs.append([list(x) for x in d[:3]])
             results.append((list(self.path), out))
             self.npaths += 1
             if on_path:
